@@ -181,12 +181,19 @@ Lemma check_C14_spec c :
   match c with
   | CReader tr failed => reader_orderb false false tr = true /\ failed = false
   | CWriter tr n => writer_orderb false false tr = true /\ n = 0
+  | CWriterSem v0 tr => wfb v0 tr = true
   end.
 Proof.
-  destruct c as [tr f | tr n]; cbn; rewrite andb_true_iff.
+  destruct c as [tr f | tr n | v0 tr]; cbn; [rewrite andb_true_iff | rewrite andb_true_iff | tauto].
   - rewrite negb_true_iff. tauto.
   - rewrite Nat.eqb_eq. tauto.
 Qed.
+
+(* an observed writer stream accepted by the oracle is exactly a premise of the reader theorem *)
+Lemma accepted_writers_give_reader_guarantee v streams sched t1 t2 :
+  Forall (fun s => check_C14 (CWriterSem v s) = true) streams -> t1 <= t2 ->
+  reader_ok v (run_sched streams sched) t1 t2 = true.
+Proof. intros H Hle. apply reader_sees_closed_interleaved; assumption. Qed.
 
 (* writer shape: the snapshot is the last upload and no pack is left unindexed before it *)
 Lemma writer_order_snap_last tr : forall d, writer_orderb d true tr = true -> ~ In WPack tr /\ ~ In WIdx tr.
@@ -196,3 +203,11 @@ Proof.
   - destruct d; [discriminate|]. destruct (IH _ H). split; intros [X | X]; try discriminate; tauto.
   - destruct (IH _ H). split; intros [X | X]; try discriminate; tauto.
 Qed.
+
+(* the decoded-writer oracle separates: snapshot before its index entry / entry naming a pack not saved *)
+Example writer_decoded_oracle :
+  check_case (CWriterSem (mkView [5] [(7, 5)]) [SavePack 0; SaveIdx [(0, 0); (1, 0)]; SaveSnap [0; 1; 7]]) = 0 /\
+  check_case (CWriterSem (mkView [] []) [SavePack 0; SaveSnap [0]; SaveIdx [(0, 0)]]) = 3 /\
+  check_case (CWriterSem (mkView [] []) [SaveIdx [(0, 0)]; SavePack 0; SaveSnap [0]]) = 3 /\
+  check_case (CWriterSem (mkView [] []) [SavePack 0; SaveIdx [(0, 0)]; SaveSnap [0; 1]]) = 3.
+Proof. vm_compute. repeat split. Qed.
